@@ -28,7 +28,7 @@ if [ -n "$demo" ]; then
 fi
 if [ "$SKIP_SUITE" = 1 ]; then suite=skipped; else
 if (cd $W && go test -vet=off -count=1 ./... >/dev/shm/seed-suite.$$.log 2>&1); then suite=pass; else suite=FAIL; fi; fi
-VERIF_REPO=$W "$(dirname "$(readlink -f "$0")")"/check $prop quick > /dev/shm/seed-check.$$.log 2>&1; rc=$?
+VERIF_NO_EVIDENCE=1 VERIF_REPO=$W "$(dirname "$(readlink -f "$0")")"/check $prop quick > /dev/shm/seed-check.$$.log 2>&1; rc=$?
 oracle=$(grep -m1 -o 'oracle=[^ ]*' /dev/shm/seed-check.$$.log)
 echo "SEED $prop $(basename $dir): demo-clean=$res_clean demo-mutated=$res_mut suite=$suite check-exit=$rc $oracle"
 grep -m2 -A1 '^VIOLATION' /dev/shm/seed-check.$$.log | cut -c1-300
